@@ -13,12 +13,14 @@
     Finiteness is stated on the integer skeleton of the evaluations: every divisor is an integer >= 1 and
     every operand a bounded integer, so the float32 operations that follow (conversion, one division,
     rounding, sqrt of a count) cannot produce NaN or an infinity; those float steps themselves are not
-    modelled.  Colour-blindness of BERNSTEIN's mobility term is stated ([mirror_mobility_statement]) but
-    not proved: [C20_colourblind] gives the other terms unconditionally and the whole evaluation under it;
-    the implementation is checked on mirrored games on every run. *)
+    modelled.  Colour-blindness of the whole BERNSTEIN evaluation in every legal position is
+    [bernstein_colourblind_full] (Lemmas/MirrorMobility*.v: the number of legal moves commutes with the
+    mirror for BOTH colours of a legal position).  The statement first written down for it, over the bare
+    representation invariant, is false ([mirror_mobility_statement_false]: an en passant field outside
+    ranks 3/6 is not mirror-symmetric) - it holds under [ep_rank_ok], which every legal position satisfies. *)
 From Coq Require Import NArith ZArith List Bool.
 From Morlock.Model Require Import Bits Score Attacks Move Position Abs Fen Engines.
-From Morlock.Lemmas Require Import EnginesLemmas.
+From Morlock.Lemmas Require Import EnginesLemmas MirrorMobility.
 
 Definition C20_finite := @C20_evaluations_finite.
 Check @C20_evaluations_finite.
@@ -35,6 +37,13 @@ Check @mirror_wf.
 Check mirror_mobility_statement.
 Check @bernstein_colourblind_from_mobility.
 Check mobility_mirror_samples.
+Definition C20_bernstein_colourblind := @Statements.bernstein_colourblind_full.
+Check @Statements.bernstein_colourblind_full.
+Check @Statements.bernstein_evaluate_colourblind.
+Check @Statements.mirror_mobility_wf.
+Check @Statements.mirror_mobility_ep.
+Check @Statements.legal_moves_mirror_perm.
+Check @Statements.mirror_mobility_statement_false.
 
 Definition C20_move_filters := @C20_filters.
 Check @C20_filters.
@@ -52,3 +61,4 @@ Print Assumptions C20_evaluations_finite.
 Print Assumptions C20_colourblind.
 Print Assumptions C20_filters.
 Print Assumptions C20_books.
+Print Assumptions Statements.bernstein_colourblind_full.
